@@ -98,7 +98,21 @@ def _build(case):
             getattr(H, "add_constraint_%s_zero" % con[1])(dict(con[2]), **kw)
         else:
             getattr(H, "add_constraint_" + con[1])(*con[2], lam=lam)
+    fork = case.get("fork")
+    if fork:
+        # a copy of the finished model gets one more constraint; the model itself must not notice
+        H2 = {"copy": lambda m: m.copy(), "ctor": lambda m: type(m)(m), "plus0": lambda m: m + 0,
+              "times1": lambda m: 1 * m}[fork["via"]](H)
+        kw = {"lam": (fmax - fmin) + 1, "suppress_warnings": True}
+        if fork["rel"] != "eq":
+            kw["log_trick"] = case["log_trick"]
+        getattr(H2, "add_constraint_%s_zero" % fork["rel"])(dict(fork["P"]), **kw)
+        _FORKS.append(H2)          # keep it alive
+        del _FORKS[:-4]
     return H, vs, opt, feas
+
+
+_FORKS = []
 
 
 def _labels_of(d):
@@ -149,6 +163,30 @@ def _rand_lin(rng, labs, spin):
     return t
 
 
+def _rand_special(rng, labs, spin):
+    """constraints in (or next to) the shapes the library encodes without slack variables: c*z +- c*x*y,
+    x + y <= 1, 1 <= x + y, x <= y, sum <= k - with the signs and the relation varied, so that look-alikes of a
+    special form are generated as often as the form itself"""
+    c = rng.choice([1, 1, 2])
+    shape = rng.choice(["zxy", "zxy", "zxy", "atmost1", "or", "xley", "sumk"])
+    ls = rng.sample(labs, min(len(labs), 3))
+    if shape == "zxy" and len(ls) >= 3:
+        z, x, y = ls
+        P = {(z,): rng.choice([c, -c]), (x, y): rng.choice([c, -c])}
+        return ("rel", rng.choice(["eq", "eq", "le", "ge"]), P)
+    if shape == "atmost1":
+        P = {(l,): 1 for l in ls}
+        P[()] = -1
+        return ("rel", rng.choice(["le", "le", "eq"]), P)
+    if shape == "or" and len(ls) >= 2:
+        return ("rel", rng.choice(["ge", "le"]), {(ls[0],): 1, (ls[1],): 1, (): -1})
+    if shape == "xley" and len(ls) >= 2:
+        return ("rel", rng.choice(["le", "ge", "lt"]), {(ls[0],): 1, (ls[1],): -1})
+    P = {(l,): 1 for l in ls}
+    P[()] = -rng.choice([1, 2])
+    return ("rel", "le", P)
+
+
 def _rand_gate(rng, labs):
     name = rng.choice(GATES_EQ + GATES_PLAIN)
     g = name[3:] if name.startswith("eq_") else name
@@ -181,6 +219,9 @@ def _rand_case(rng, tname, ctx):
             if g:
                 cons.append(g)
                 continue
+        if not spin and rng.random() < 0.3:
+            cons.append(_rand_special(rng, labs, spin))
+            continue
         cons.append(("rel", rng.choice(["le", "ge", "lt", "gt", "ne", "le", "ge", "eq"]), _rand_lin(rng, labs, spin)))
     return {"type": tname, "f": f, "cons": cons, "extras": [rng.choice([0, 0, 1, 5]) for _ in cons],
             "log_trick": rng.random() < 0.5}
@@ -212,6 +253,12 @@ def _fixed_cases():
     out.append({"type": "PCBO", "f": {(a,): -1, (b,): -2, (c,): -3, (a, c): 2},
                 "cons": [("gate", "XOR", (a, b)), ("rel", "ge", {(b,): 1, (c,): 1, (): -1}),
                          ("gate", "NAND", (b, c))], "extras": [0, 0, 5], "log_trick": False})
+    f2 = {(a,): -3, (b,): -2, (c,): -2, (): 1}
+    for s1 in (1, -1, 2, -2):
+        for s2 in (1, -1):
+            for rel in ("eq", "le", "ge"):
+                out.append({"type": "PCBO", "f": f2, "cons": [("rel", rel, {(a,): s1, (b, c): s2 * abs(s1)})],
+                            "extras": [0], "log_trick": True})
     g1 = {(a,): 2, (b,): 3, (c,): 1, (a, b): -1}
     for rel, ct in [("le", {(a,): 1, (b,): 1, (c,): 1, (): 1}), ("lt", {(a,): 1, (b,): 1}),
                     ("ge", {(a,): 1, (b,): 1, (c,): 1, (): -1}), ("gt", {(a,): 1, (c,): 2, (): 1}),
@@ -241,6 +288,12 @@ def _gen(salt, quick_n, thorough_n):
             if not _nontrivial(case) and rng.random() < 0.75:
                 continue                        # prefer cases in which the constraints change the answer
             made += 1
+            if made % 3 == 0:
+                rels = [c[1] for c in case["cons"] if c[0] == "rel"]
+                labs = _model_vars(case)
+                if rels and len(labs) >= 2:
+                    case = dict(case, fork={"via": ("copy", "ctor", "plus0", "times1")[(made // 3) % 4], "rel": rels[0],
+                                            "P": _rand_lin(rng, labs, case["type"] == "PCSO")})
             yield dict(case, maxvars=mv)
     return gen
 
